@@ -382,7 +382,11 @@ func (u UpdSpec) Describe() string {
 	if u.MPUv4 {
 		mpu = "mp-unreach-v4"
 	}
-	return "UPDATE{" + strings.TrimSpace(f("withdrawn", u.Wd)+f("nlri", u.Ann)+f(mpr, u.MPR)+f(mpu, u.MPU)) + fmt.Sprintf(" nh-id=%d}", u.Attr.NH)
+	order := ""
+	if len(u.Order) > 0 {
+		order = fmt.Sprintf(" attr-order=%v", u.Order)
+	}
+	return "UPDATE{" + strings.TrimSpace(f("withdrawn", u.Wd)+f("nlri", u.Ann)+f(mpr, u.MPR)+f(mpu, u.MPU)) + fmt.Sprintf(" nh-id=%d%s}", u.Attr.NH, order)
 }
 
 // RandAttrs draws the attributes of a valid UPDATE for session c; nh is the message's unique id.
